@@ -48,7 +48,9 @@ def run_typed(ctx, pred, jobs, replay=None, nontrivial_rule=None):
     total, nontrivial, hashes, samples = 0, 0, set(), []
     stats = {"cases": 0, "skipped": 0, "replay_ok": 0, "replay_diff": 0, "replay_skipped": 0, "pred_fail": 0,
              "sends": 0, "values": 0, "failed_sends": 0, "streamed": 0, "cancelled": 0, "with_halves": 0,
-             "recv_errors": 0, "fail_then_deliver": 0, "variant_pinned_only": 0, "variant_fixed_only": 0}
+             "recv_errors": 0, "fail_then_deliver": 0, "variant_pinned_only": 0, "variant_fixed_only": 0,
+             "close_links": 0, "close_links_replayed_on_M_close": 0, "dropped_sending_handles": 0,
+             "sends_refused_as_Closed_after_drop_or_connection_failure_F_TC_1": 0}
     kinds = {}
     fails, diffs = [], []
     for name, args, seed in jobs:
@@ -85,7 +87,9 @@ def run_typed(ctx, pred, jobs, replay=None, nontrivial_rule=None):
             kinds[key] = kinds.get(key, 0) + 1
             for a, b in (("sends", "sends"), ("values", "values"), ("failed", "failed_sends"), ("streamed", "streamed"),
                          ("cancelled", "cancelled"), ("halves", "with_halves"), ("recverrs", "recv_errors"),
-                         ("failthendeliver", "fail_then_deliver")):
+                         ("failthendeliver", "fail_then_deliver"), ("closelinks", "close_links"),
+                         ("closereplayed", "close_links_replayed_on_M_close"), ("droppedhandles", "dropped_sending_handles"),
+                         ("closedaftergone", "sends_refused_as_Closed_after_drop_or_connection_failure_F_TC_1")):
                 stats[b] += int(m.get(a, 0))
             rp = m.get("replay")
             stats["replay_ok" if rp == "ok" else ("replay_diff" if rp == "diff" else "replay_skipped")] += 1
@@ -175,7 +179,16 @@ C11_TYPED_RULE = ("typed channels (base, lr, mpsc with 1-3 senders on both endpo
                   "receiver keeps receiving (close, all senders dropped => end-of-stream only after all data), sends after the sender "
                   "learnt of the condition fail, is_closed / closed_reason / closed() / error kinds classify the condition, mpsc values "
                   "accepted but not transmitted form a suffix with Dropped handles; every such case counts as non-trivial, distinct = "
-                  "distinct sequence of results")
+                  "distinct sequence of results. Queued channels (mpsc, oneshot) in addition, with the decidable functions of M_close "
+                  "(RemocModel/Base/CloseReplay.lean): per link the Sending results in acceptance order satisfy suffixOk and none is "
+                  "pending; the values delivered from a link are, in order, a prefix of those with an Ok handle and all of them at a "
+                  "clean end-of-stream (deliveredOk); without a close no end-of-stream is delivered before every sender was dropped "
+                  "(later senders linger); and every link without item failures is replayed on M_close's step function along the "
+                  "schedule reconstructed from the run (n values accepted, the first k transmitted, then the event and the step by "
+                  "which send_impl learns of it, then the receiver drains): handle results, closed_reason()/is_closed() of every "
+                  "sender clone on the link and of local clones, delivered values and clean end-of-stream must coincide (DIFF); a run "
+                  "that drops more values than the local queue holds cannot be followed by the model. oneshot: close/drop before the "
+                  "send and right after it")
 
 
 def run_c11_typed(ctx, replay=None):
